@@ -6,6 +6,19 @@ from workspace import VERIF, ToolError
 PROPS_FILE = os.path.join(VERIF, "spec", "properties.json")
 BASELINE_FILE = os.path.join(VERIF, "spec", "baseline_obligations.json")
 KNOWN_FILE = os.path.join(VERIF, "known_findings.json")
+FNHASH_FILE = os.path.join(VERIF, "spec", "baseline_fnhash.json")
+
+
+def fn_hashes(src, report):
+    """hash of the token stream of every VERIFY function in the expanded source (to recognise changed functions)"""
+    import rlex
+    toks, items = rlex.parse_crate(src)
+    want = set(report.get("verify", [])) | set(report.get("assume", []))
+    out = {}
+    for it in rlex.walk(items):
+        if it.kind == "fn" and it.path in want:
+            out[it.path] = hashlib.sha1(" ".join(rlex.token_texts(src[it.head_start:it.end])).encode()).hexdigest()
+    return out
 
 
 def load_json(path, default):
@@ -63,47 +76,69 @@ def run_verus_part(res, cfg, src, report_extra):
     """Generate the unit, check fidelity, run Verus on the property's modules, collect obligations tagged pid."""
     pid = res.pid
     unit = verus.load_unit()
-    report = {}
-    out = verus.assemble(src, unit, report)
     work = os.path.join(VERIF, ".work", pid)
     os.makedirs(work, exist_ok=True)
     path = os.path.join(work, "unit.rs")
-    text = out.text()
-    open(path, "w").write(text)
-    res.log["unit_sha256"] = hashlib.sha256(text.encode()).hexdigest()
-    res.log["unit_bytes"] = out.nbytes
-    # fidelity: undo every sentinel-marked change and compare token streams with the expanded source
-    fid = fidelity.check(src, text, report)
-    res.log["fidelity"] = fid
-    if not fid["ok"]:
-        raise ToolError("fidelity check failed: " + fid["error"])
     modules = cfg.get("verus_modules", [])
-    marks = out.marks
-    mine = [m for m in marks if pid in (m.get("tags") or [])]
-    # every tagged mark must live in a module we verify
-    def mark_module(m):
-        fn = m["fn"]
-        if m["kind"] in ("lemma", "specfn", "trusted"):
-            return fn.split("::")[1]
-        parts = fn.split("::")
-        # module path = leading lower-case segments that are modules
-        mods = []
-        for p in parts[:-1]:
-            if p.startswith("<") or p[0].isupper():
-                break
-            mods.append(p)
-        return "::".join(mods)
-    needed = sorted(set(mark_module(m) for m in mine if m["kind"] not in ("specfn", "trusted")))
-    for n in needed:
-        if n not in modules:
-            raise ToolError("configuration: property %s has obligations in module %s which is not in its verus_modules" % (pid, n))
-    extra = []
-    for m in modules:
-        extra += ["--verify-module", m]
-    rc, js, diags, stderr = verus.run_verus(path, res.log, extra=extra)
-    failures, front, notes = verus.classify(diags, marks)
-    if front:
-        raise ToolError("Verus front end rejected the generated unit (unsupported construct / renamed item?):\n" + "\n".join((f["rendered"] or f["message"]) for f in front[:5]))
+    res.demoted = []
+    for attempt in range(6):
+        report = {}
+        out = verus.assemble(src, unit, report)
+        text = out.text()
+        open(path, "w").write(text)
+        res.log["unit_sha256"] = hashlib.sha256(text.encode()).hexdigest()
+        res.log["unit_bytes"] = out.nbytes
+        # fidelity: undo every sentinel-marked change and compare token streams with the expanded source
+        fid = fidelity.check(src, text, report)
+        res.log["fidelity"] = fid
+        if not fid["ok"]:
+            raise ToolError("fidelity check failed: " + fid["error"])
+        marks = out.marks
+        mine = [m for m in marks if pid in (m.get("tags") or [])]
+        # every tagged mark must live in a module we verify
+        needed = sorted(set(mark_module(m) for m in mine if m["kind"] not in ("specfn", "trusted")))
+        for n in needed:
+            if n not in modules:
+                raise ToolError("configuration: property %s has obligations in module %s which is not in its verus_modules" % (pid, n))
+        extra = []
+        for m in modules:
+            extra += ["--verify-module", m]
+        rc, js, diags, stderr = verus.run_verus(path, res.log, extra=extra)
+        failures, front, notes = verus.classify(diags, marks, js)
+        ice = "thread 'rustc'" in stderr and "panicked" in stderr
+        if not front and not ice:
+            break
+        # Functions whose body left the fragment Verus reads (iterator adapters, closures, ...): demote them to
+        # ASSUME (contract kept, body dropped) so that everything else is still decided; their own obligations are undecided.
+        culprits = []
+        for f in front:
+            b = f["body"]
+            if b is not None and b["kind"] == "body" and b["fn"] not in culprits:
+                culprits.append(b["fn"])
+        if not culprits:
+            # no usable location (e.g. a Verus internal error): demote the VERIFY functions whose text changed since the baseline
+            known = load_json(FNHASH_FILE, {})
+            cur = fn_hashes(src, report)
+            for fn, h in cur.items():
+                if fn in known and known[fn] != h and fn not in [d["fn"] for d in res.demoted]:
+                    culprits.append(fn)
+            if ice and culprits:
+                front = [{"message": "Verus internal error while translating this function: " + (re.findall(r"panicked at [^\n]*\n([^\n]*)", stderr) or ["?"])[0], "rendered": "", "body": {"fn": c}} for c in culprits]
+        if not culprits or attempt == 5:
+            if ice:
+                raise ToolError("Verus crashed (internal error) and no changed function could be isolated:\n" + stderr[:600])
+            raise ToolError("Verus front end rejected the generated unit (unsupported construct / renamed item?):\n" + "\n".join((f["rendered"] or f["message"]) for f in front[:5]))
+        for fn in culprits:
+            fs = unit.fns.get(fn)
+            if fs is None:
+                fs = vspec.FnSpec(fn, "assume", [], "auto")
+                unit.fns[fn] = fs
+            fs.mode = "assume"
+            fs.loops = {}; fs.proofs = []; fs.assume_pre = []; fs.assume_inv = []
+            msg = [f["message"] for f in front if f["body"] is not None and f["body"]["fn"] == fn][0]
+            res.demoted.append({"fn": fn, "reason": msg.split("\n")[0][:200]})
+        for f in unit.fns.values():
+            f.used = False
     if js is None:
         raise ToolError("Verus produced no JSON result:\n" + stderr[-2000:])
     vr = js.get("verification-results", {})
@@ -113,7 +148,7 @@ def run_verus_part(res, cfg, src, report_extra):
     # a second look at failures: rerun once with a doubled rlimit to separate flakiness from a definite answer
     if failures:
         rc2, js2, diags2, stderr2 = verus.run_verus(path, {}, extra=extra, rlimit=40)
-        failures2, front2, _ = verus.classify(diags2, marks)
+        failures2, front2, _ = verus.classify(diags2, marks, js2)
         ids2 = set()
         for f in failures2:
             m = f["clause"] or f["body"]
@@ -127,6 +162,7 @@ def run_verus_part(res, cfg, src, report_extra):
             else:
                 res.undecided.append("unstable or resource-limited Verus failure: %s (%s)" % (oid, f["message"]))
         failures = keep
+    res.fn_hashes = fn_hashes(src, report)
     breakdown = verus.function_breakdown(js)
     res.log["verus_functions_checked"] = len(breakdown)
     # obligations of this property
@@ -148,7 +184,12 @@ def run_verus_part(res, cfg, src, report_extra):
         if m["kind"] in ("specfn", "trusted", "requires"):
             continue
         if m.get("assumed"):
-            res.trusted.append("ASSUMED contract (not discharged here): %s ensures %s" % (m["fn"], m.get("text", "")))
+            dem = [d for d in res.demoted if d["fn"] == m["fn"]]
+            if dem:
+                obls.append({"id": verus.obligation_id(m), "engine": "verus", "status": "left-fragment", "text": m.get("text", ""), "where": m.get("where", ""),
+                             "verifier_output": "the function body is no longer in the fragment Verus reads: " + dem[0]["reason"]})
+            else:
+                res.trusted.append("ASSUMED contract (not discharged here): %s ensures %s" % (m["fn"], m.get("text", "")))
             continue
         oid = verus.obligation_id(m)
         fn = m["fn"]
@@ -186,6 +227,18 @@ def run_verus_part(res, cfg, src, report_extra):
     return out, report
 
 
+def mark_module(m):
+    fn = m["fn"]
+    if m["kind"] in ("lemma", "specfn", "trusted"):
+        return fn.split("::")[1]
+    mods = []
+    for p in fn.split("::")[:-1]:
+        if p.startswith("<") or p[0].isupper():
+            break
+        mods.append(p)
+    return "::".join(mods)
+
+
 def scan_assumptions(text):
     counts = {}
     for kw in ("assume(", "admit(", "#[verifier::external_body]", "assume_specification", "#[verifier::external]", "uninterp spec fn"):
@@ -201,12 +254,24 @@ def decide(res, cfg):
     known = [k for k in load_json(KNOWN_FILE, []) if k.get("property") == pid]
     now = {o["id"]: o for o in res.obligations}
     # lost obligations
-    lost = sorted(b for b in base if b not in now)
+    demoted = set(d["fn"] for d in getattr(res, "demoted", []))
+    lost = sorted(b for b in base if b not in now and b.split("#")[0] not in demoted)
+    for d in getattr(res, "demoted", []):
+        covered = [o for o in res.obligations if o["engine"] == "kani" and d["fn"] in (o.get("covers") or [])]
+        if covered and all(o["status"] in ("discharged", "bounded") for o in covered):
+            res.assumptions.append("function %s left the fragment Verus reads (%s); its contract is carried by Kani harness(es) %s on this run" % (d["fn"], d["reason"], ", ".join(o["id"] for o in covered)))
+            for o in res.obligations:
+                if o["status"] == "left-fragment" and o["id"].split("#")[0] == d["fn"]:
+                    o["status"] = "discharged"; o["engine"] = "kani(fallback)"
+        elif not covered:
+            res.undecided.append("function %s is no longer in the fragment Verus reads (%s) and no Kani harness covers its contract: undecided" % (d["fn"], d["reason"]))
     if lost:
         res.undecided.append("obligations in the committed baseline were not generated on this tree (lost anchor?): " + ", ".join(lost[:8]))
     rc = 0
     nviol = 0
     for o in res.obligations:
+        if o["status"] == "left-fragment":
+            continue
         if o["status"] == "notrun":
             res.undecided.append("obligation not reached by the verifier: " + o["id"])
         if o["status"] != "failed":
@@ -313,6 +378,10 @@ def check(pid, tier, seed, update_baseline=False):
             for extra in cfg.get("scans", []):
                 import scans
                 scans.run(extra, res, sc)
+        if update_baseline and getattr(res, "fn_hashes", None):
+            known = load_json(FNHASH_FILE, {})
+            known.update(res.fn_hashes)
+            json.dump(known, open(FNHASH_FILE, "w"), indent=0, sort_keys=True)
         if update_baseline:
             baseline = load_json(BASELINE_FILE, {})
             baseline[pid] = sorted(o["id"] for o in res.obligations if o["status"] in ("discharged", "bounded"))
